@@ -13,7 +13,8 @@ REG.assumptions += [
 ]
 REG.undecided += [
     'chemical-potential derivative matrix equals the finite-difference derivative of EQUILIBRIUM chemical potentials (statement about pycalphad\'s equilibrium solver and database values)',
-    'symmetry / positive definiteness of dmu/dx and real positive eigenvalues of the interdiffusivity in the stable region (database numerics; no contract in reach)',
+    'symmetry / positive definiteness of dmu/dx and real positive eigenvalues of the interdiffusivity in the stable region (database numerics; no contract in reach): '
+    'what is proved is that the bordered Lagrangian Hessian kawin builds and inverts is symmetric with the documented blocks whenever the free-energy Hessian of the phase record is',
 ]
 MOB = 'kawin.thermo.Mobility'
 FEH = 'kawin.thermo.FreeEnergyHessian'
@@ -216,6 +217,79 @@ def c_dmudx(ctx, it, cfg):
         for d, b in enumerate(rest):
             want = (-inv2.get(i0 + a, i0 + b) + inv2.get(i0 + a, i0 + r)) - (-inv2.get(i0 + r, i0 + b) + inv2.get(i0 + r, i0 + r))
             ctx.prove('re-solved-set: dmu[%s]/dx[%s] from the CURRENT Hessian' % (els[a], els[b]), eq(tot2.get(c, d), want))
+
+
+@REG.contract('hessian/bordered-matrix-is-symmetric-with-the-stated-blocks', [FEH + ':hessian'],
+              configs=[dict(name='dof=%d,elements=%d,statevars=%d' % (D, E, S), D=D, E=E, S=S) for D, E, S in ((2, 2, 2), (3, 2, 2), (3, 3, 1))])
+def c_hessian(ctx, it, cfg):
+    """the bordered Hessian of the single-phase Lagrangian that dMudX inverts: for ANY phase record (symmetric free-energy Hessian: second derivatives of a
+    smooth function, assumed) the matrix is symmetric, its blocks are the five documented derivatives and every other block is zero"""
+    D, E, S = cfg['D'], cfg['E'], cfg['S']
+    C = 1
+    els = ['A', 'B', 'C'][:E]
+    dM = [[real(ctx, 'dM%d_%d' % (a, k)) for k in range(S + D)] for a in range(E)]
+    M = [real(ctx, 'M%d' % a, lambda v: v > 0) for a in range(E)]
+    g = [real(ctx, 'dG%d' % k) for k in range(S + D)]
+    h = [[real(ctx, 'd2G_%d_%d' % (min(i, j), max(i, j))) for j in range(S + D)] for i in range(S + D)]      # symmetric by construction
+    cj = [[real(ctx, 'cj%d_%d' % (c, k)) for k in range(S + D)] for c in range(C)]
+    dof = NP.array([real(ctx, 'dof%d' % k) for k in range(S + D)])
+    seen = []
+
+    def fill(out, vals):
+        for k, v in enumerate(vals):
+            out[k] = v
+
+    class PR(object):
+        nonvacant_elements = els
+        phase_dof, num_internal_cons, num_statevars = D, C, S
+
+        def formulamole_grad(self, out, d, a):
+            seen.append(d)
+            fill(out, dM[a])
+
+        def formulamole_obj(self, out, d, a):
+            seen.append(d)
+            out[0] = M[a]
+
+        def formulagrad(self, out, d):
+            seen.append(d)
+            fill(out, g)
+
+        def formulahess(self, out, d):
+            seen.append(d)
+            for i in range(S + D):
+                for j in range(S + D):
+                    out[i, j] = h[i][j]
+
+        def internal_cons_jac(self, out, d):
+            seen.append(d)
+            for c in range(C):
+                for k in range(S + D):
+                    out[c, k] = cj[c][k]
+
+    class CS(object):
+        phase_record = PR()
+    cs = CS()
+    cs.dof = dof
+    mu = [real(ctx, 'mu%d' % a) for a in range(E)]
+    d0 = snapshot(dof)
+    H = it.get(FEH, 'hessian')(NP.array(mu), cs)
+    n = D + C + E + 1
+    ctx.prove('shape', H.ndim == 2 and H.shape[0] == n and H.shape[1] == n)
+    ctx.prove('symmetric', and_(*[eq(H.get(i, j), H.get(j, i)) for i in range(n) for j in range(i + 1, n)]))
+    N = 1 / sum(M)
+    iN, iL, iMu = D, D + 1, D + 1 + C
+    ctx.prove('block d2L/dyi dyj = N * d2G/dyi dyj (site fractions only, state variables skipped)', and_(*[eq(H.get(i, j), N * h[S + i][S + j]) for i in range(D) for j in range(D)]))
+    ctx.prove('block d2L/dyi dN = dG/dyi - sum_A mu_A dM_A/dyi', and_(*[eq(H.get(i, iN), g[S + i] - sum(mu[a] * dM[a][S + i] for a in range(E))) for i in range(D)]))
+    ctx.prove('block d2L/dyi dlambda = -constraint Jacobian', and_(*[eq(H.get(i, iL + c), -cj[c][S + i]) for i in range(D) for c in range(C)]))
+    ctx.prove('block d2L/dyi dmu_A = -N dM_A/dyi', and_(*[eq(H.get(i, iMu + a), -N * dM[a][S + i]) for i in range(D) for a in range(E)]))
+    ctx.prove('block d2L/dmu_A dN = -M_A', and_(*[eq(H.get(iN, iMu + a), -M[a]) for a in range(E)]))
+    zero = [(iN, iN)] + [(iN, iL + c) for c in range(C)] + [(iL + c, iL + e) for c in range(C) for e in range(C)] + [(iL + c, iMu + a) for c in range(C) for a in range(E)] \
+        + [(iMu + a, iMu + b) for a in range(E) for b in range(E)]
+    ctx.prove('every-other-block-is-zero', and_(*[eq(H.get(i, j), 0) for i, j in zero]))
+    ctx.prove('every-record-function-asked-at-the-sets-own-degrees-of-freedom', all(d is dof for d in seen) and len(seen) == 2 * E + 3)
+    unchanged(ctx, 'degrees-of-freedom', d0, dof)
+    ctx.prove('canary/amount-column-is-the-plain-gradient', eq(H.get(0, iN), g[S]), expect='refuted')
 
 
 @REG.contract('inverseMobility/consistent-pieces', [MOB + ':inverseMobility'], configs=[dict(name='AL-CR-NI', els=['AL', 'CR', 'NI'])])
